@@ -234,3 +234,23 @@ async fn acc_dead_request_then_live() {
     assert!(c.is_ok() && c.unwrap().is_ok(), "the live client was never accepted: the acceptor stalled");
     assert!(tokio::time::timeout(std::time::Duration::from_secs(5), server).await.expect("acceptor finished").unwrap().is_ok());
 }
+
+/// tcp.info.no_panic [C09]: a stream handed out by the TCP acceptor answers `info()` without consulting the OS for the
+/// peer address (a client that reset its connection in the listen backlog makes getpeername() fail with ENOTCONN)
+#[cfg(feature = "stream")]
+#[tokio::test]
+async fn tcp_info_after_peer_reset() {
+    use crate::info::HasConnectionInfo as _;
+    let listener = tokio::net::TcpListener::bind("127.0.0.1:0").await.unwrap();
+    let addr = listener.local_addr().unwrap();
+    // connect, then reset (SO_LINGER=0 close) while the connection still sits in the backlog
+    let s = std::net::TcpStream::connect(addr).unwrap();
+    let sock = socket2::Socket::from(s);
+    sock.set_linger(Some(std::time::Duration::ZERO)).unwrap();
+    drop(sock);
+    tokio::time::sleep(std::time::Duration::from_millis(50)).await;
+    let (inner, remote) = tokio::time::timeout(std::time::Duration::from_secs(5), listener.accept()).await.expect("accept timed out").unwrap();
+    let stream = crate::stream::tcp::TcpStream::server(inner, remote);
+    let r = std::panic::catch_unwind(std::panic::AssertUnwindSafe(|| stream.info()));
+    assert!(r.is_ok(), "info() of an accepted stream panicked after the peer reset the connection");
+}
